@@ -427,4 +427,525 @@ theorem sem_step_inv (p : Pid) (intr : Bool) (nm : Nat) (s : SemSt) (os : OS) (f
       · have : s.next = .semget k semgetPlainNsems semgetPlainFlags := by simp [SemSt.next, hpc, hk]
         rw [this]; exact sys_semget_foreign p intr nm _ _ os f i id k hb hkn
 
+/-! ### the segment machine: its own system calls do not touch semaphores; its lock-semaphore sub-machine is a `SemSt` -/
+
+def ShmSt.inv (f : KeyFile) (i : Ino) (id : SemId) (s : ShmSt) : Prop :=
+  (∀ ps, s.h.sem = some ps → ps.inv f id) ∧
+  (match s.pc with
+   | .cSem st => st.inv f i id
+   | .kSem st => st.inv f i id
+   | _ => True)
+
+def ShmSt.quiet (f : KeyFile) (s : ShmSt) : Prop :=
+  match s.pc with
+  | .cSem st => st.quiet f
+  | .kSem st => st.quiet f
+  | _ => True
+
+def ShmOut.inv (f : KeyFile) (i : Ino) (id : SemId) : ShmOut → Prop
+  | .cont s' => s'.inv f i id
+  | .done (h, _) => ∀ ps, h.sem = some ps → ps.inv f id
+
+theorem lockSt_inv (f : KeyFile) (i : Ino) (id : SemId) (s : ShmSt) : s.lockSt.inv f i id := by
+  simp only [ShmSt.lockSt, SemSt.inv]
+  split <;> simp
+
+theorem startClean_free_inv (f : KeyFile) (i : Ino) (id : SemId) (ps : PSem) (hp : ps.inv f id) (st : SemSt)
+    (h : ({ api := .free, h := ps, pc := .kRmid } : SemSt).startClean = .cont st) : st.inv f i id := by
+  simp only [SemSt.startClean, SemSt.afterClean] at h
+  (repeat' split at h) <;> simp only [Out.cont.injEq, reduceCtorEq] at h <;> subst h <;>
+    simp only [SemSt.inv, PSem.inv] at hp ⊢ <;> split <;> simp_all
+
+theorem shm_clean_inv (f : KeyFile) (i : Ino) (id : SemId) (s : ShmSt) (hs : ∀ ps, s.h.sem = some ps → ps.inv f id) :
+    ShmOut.inv f i id s.cleanSem ∧ ShmOut.inv f i id s.cleanFile ∧ ShmOut.inv f i id s.startClean ∧ ShmOut.inv f i id s.afterClean := by
+  have h4 : ShmOut.inv f i id s.afterClean := by
+    simp only [ShmSt.afterClean]; split <;> simp [ShmOut.inv, PShm.cleaned]
+  have h1 : ShmOut.inv f i id s.cleanSem := by
+    simp only [ShmSt.cleanSem]
+    split
+    · exact h4
+    · rename_i ps hps
+      split
+      · rename_i st hst
+        exact ⟨hs, startClean_free_inv f i id ps (hs ps hps) st hst⟩
+      · exact h4
+  have h2 : ShmOut.inv f i id s.cleanFile := by
+    simp only [ShmSt.cleanFile]; split
+    · exact ⟨hs, trivial⟩
+    · exact h1
+  refine ⟨h1, h2, ?_, h4⟩
+  simp only [ShmSt.startClean]; split
+  · exact ⟨hs, trivial⟩
+  · exact h2
+
+/-- a transition of the segment machine at one of its own system calls (any result): the struct's lock handle is carried
+    along unchanged or dropped, a lock-semaphore sub-machine starts in a state that keeps the invariant -/
+theorem shm_after_inv_plain (f : KeyFile) (i : Ino) (id : SemId) (s : ShmSt) (r : Res) (hs : ∀ ps, s.h.sem = some ps → ps.inv f id)
+    (hpc : match s.pc with | .cSem _ => False | .kSem _ => False | _ => True) : ShmOut.inv f i id (s.after r) := by
+  obtain ⟨isNew, h, req, pc, built, isExists, failing⟩ := s
+  simp only at hs
+  cases pc <;> simp only at hpc <;> rcases r with v | ⟨sz, na⟩ | e | _ <;>
+    simp only [ShmSt.after, ShmSt.fail] <;> (repeat' split) <;>
+    first
+    | exact (shm_clean_inv f i id _ (by simpa using hs)).1
+    | exact (shm_clean_inv f i id _ (by simpa using hs)).2.1
+    | exact (shm_clean_inv f i id _ (by simpa using hs)).2.2.1
+    | exact (shm_clean_inv f i id _ (by simpa using hs)).2.2.2
+    | exact ⟨by simpa using hs, trivial⟩
+    | exact ⟨by simpa using hs, lockSt_inv f i id _⟩
+    | exact (by simpa [ShmOut.inv] using hs)
+
+theorem shm_step_inv (p : Pid) (intr : Bool) (nm : Nat) (s : ShmSt) (os : OS) (f : KeyFile) (i : Ino) (id : SemId) (hfs : ∀ n, f ≠ .shm n)
+    (hb : Bound os f i id) (hi : s.inv f i id) (hq : s.quiet f) :
+    Bound (sysStep p intr s.next os nm).1 f i id ∧ ShmOut.inv f i id (s.after (sysStep p intr s.next os nm).2) ∧
+    (s.file ≠ f → (sysStep p intr s.next os nm).1.sems id = os.sems id) := by
+  obtain ⟨isNew, h, req, pc, built, isExists, failing⟩ := s
+  obtain ⟨hs, hpc⟩ := hi
+  simp only at hs hpc
+  cases pc with
+  | cSem st =>
+    simp only [ShmSt.quiet] at hq
+    simp only at hpc
+    have := sem_step_inv p intr nm st os f i id hb hpc hq
+    refine ⟨by simpa [ShmSt.next] using this.1, ?_, by simpa [ShmSt.next, ShmSt.file] using this.2.2⟩
+    have h2 := this.2.1
+    simp only [ShmSt.next, ShmSt.after]
+    cases hr : st.after (sysStep p intr st.next os nm).2 with
+    | cont st' =>
+      rw [hr] at h2
+      exact ⟨hs, h2.1⟩
+    | done x =>
+      obtain ⟨ps, e⟩ := x
+      rw [hr] at h2
+      cases e with
+      | ok u =>
+        intro ps' hps'
+        simp only [Option.some.injEq] at hps'
+        subst hps'
+        exact h2 (fun _ => rfl)
+      | error e => exact (shm_clean_inv f i id _ (by simpa using hs)).2.2.1
+  | kSem st =>
+    simp only [ShmSt.quiet] at hq
+    simp only at hpc
+    have := sem_step_inv p intr nm st os f i id hb hpc hq
+    refine ⟨by simpa [ShmSt.next] using this.1, ?_, by simpa [ShmSt.next, ShmSt.file] using this.2.2⟩
+    have h2 := this.2.1
+    simp only [ShmSt.next, ShmSt.after]
+    cases hr : st.after (sysStep p intr st.next os nm).2 with
+    | cont st' =>
+      rw [hr] at h2
+      exact ⟨hs, h2.1⟩
+    | done x => exact (shm_clean_inv f i id _ (by simpa using hs)).2.2.2
+  | _ =>
+    all_goals
+      refine ⟨(sysStep_bound _ _ _ _ _ f i id hb ?_ ?_).1, shm_after_inv_plain f i id _ _ hs trivial,
+        fun _ => (sysStep_bound _ _ _ _ _ f i id hb ?_ ?_).2 ?_ ?_⟩
+      all_goals first
+        | (simp [ShmSt.next]; done)
+        | (simp only [ShmSt.next, ne_eq, Sys.unlink.injEq]; exact fun e => hfs _ e.symm)
+
+/-! ### calls in flight -/
+
+def Handle.inv (f : KeyFile) (id : SemId) : Handle → Prop
+  | .sem h => h.inv f id
+  | .shm m => ∀ ps, m.sem = some ps → ps.inv f id
+
+def Call.inv (f : KeyFile) (i : Ino) (id : SemId) : Call → Prop
+  | .semNew _ s => s.inv f i id
+  | .semFree s => s.inv f i id
+  | .semOp _ s => s.inv f i id ∧ s.api ≠ .new
+  | .shmNew _ s => s.inv f i id
+  | .shmFree s => s.inv f i id
+  | .lockOp _ _ s => s.inv f i id ∧ s.api ≠ .new
+
+/-- the call in flight is not at the IPC_RMID / unlink of a clean-up of `f`: no owner free of `f` is running -/
+def Call.quiet (f : KeyFile) : Call → Prop
+  | .semNew _ s => s.quiet f
+  | .semFree s => s.quiet f
+  | .semOp _ s => s.quiet f
+  | .shmNew _ s => s.quiet f
+  | .shmFree s => s.quiet f
+  | .lockOp _ _ s => s.quiet f
+
+def CallOut.inv (f : KeyFile) (i : Ino) (id : SemId) : Out Call (Ret × Option (Hid × Option Handle)) → Prop
+  | .cont c' => c'.inv f i id
+  | .done (_, some (_, some x)) => x.inv f id
+  | .done _ => True
+
+theorem call_step_inv (p : Pid) (intr : Bool) (c : Call) (os : OS) (f : KeyFile) (i : Ino) (id : SemId) (hfs : ∀ n, f ≠ .shm n)
+    (hb : Bound os f i id) (hi : c.inv f i id) (hq : c.quiet f) :
+    Bound (sysStep p intr c.next os c.name).1 f i id ∧ CallOut.inv f i id (c.after (sysStep p intr c.next os c.name).2) ∧
+    (c.file ≠ f → (sysStep p intr c.next os c.name).1.sems id = os.sems id) := by
+  cases c with
+  | semNew hid s =>
+    have := sem_step_inv p intr 0 s os f i id hb hi hq
+    refine ⟨this.1, ?_, this.2.2⟩
+    have h2 := this.2.1
+    simp only [Call.next, Call.name, Call.after]
+    cases hr : s.after (sysStep p intr s.next os 0).2 with
+    | cont s' => rw [hr] at h2; exact h2.1
+    | done x =>
+      obtain ⟨h, e⟩ := x
+      rw [hr] at h2
+      cases e with
+      | ok u => exact h2 (fun _ => rfl)
+      | error e => trivial
+  | semFree s =>
+    have := sem_step_inv p intr 0 s os f i id hb hi hq
+    refine ⟨this.1, ?_, this.2.2⟩
+    have h2 := this.2.1
+    simp only [Call.next, Call.name, Call.after]
+    cases hr : s.after (sysStep p intr s.next os 0).2 with
+    | cont s' => rw [hr] at h2; exact h2.1
+    | done x => trivial
+  | semOp hid s =>
+    have := sem_step_inv p intr 0 s os f i id hb hi.1 hq
+    refine ⟨this.1, ?_, this.2.2⟩
+    have h2 := this.2.1
+    simp only [Call.next, Call.name, Call.after]
+    cases hr : s.after (sysStep p intr s.next os 0).2 with
+    | cont s' => rw [hr] at h2; exact ⟨h2.1, by rw [h2.2]; exact hi.2⟩
+    | done x =>
+      obtain ⟨h, e⟩ := x
+      rw [hr] at h2
+      exact h2 (fun e' => absurd e' hi.2)
+  | lockOp hid m s =>
+    have := sem_step_inv p intr 0 s os f i id hb hi.1 hq
+    refine ⟨this.1, ?_, this.2.2⟩
+    have h2 := this.2.1
+    simp only [Call.next, Call.name, Call.after]
+    cases hr : s.after (sysStep p intr s.next os 0).2 with
+    | cont s' => rw [hr] at h2; exact ⟨h2.1, by rw [h2.2]; exact hi.2⟩
+    | done x =>
+      obtain ⟨h, e⟩ := x
+      rw [hr] at h2
+      intro ps hps
+      simp only [Option.some.injEq] at hps
+      subst hps
+      exact h2 (fun e' => absurd e' hi.2)
+  | shmNew hid s =>
+    have := shm_step_inv p intr s.h.name s os f i id hfs hb hi hq
+    refine ⟨this.1, ?_, this.2.2⟩
+    have h2 := this.2.1
+    simp only [Call.next, Call.name, Call.after]
+    cases hr : s.after (sysStep p intr s.next os s.h.name).2 with
+    | cont s' => rw [hr] at h2; exact h2
+    | done x =>
+      obtain ⟨h, e⟩ := x
+      rw [hr] at h2
+      cases e with
+      | ok u => exact h2
+      | error e => trivial
+  | shmFree s =>
+    have := shm_step_inv p intr 0 s os f i id hfs hb hi hq
+    refine ⟨this.1, ?_, this.2.2⟩
+    have h2 := this.2.1
+    simp only [Call.next, Call.name, Call.after]
+    cases hr : s.after (sysStep p intr s.next os 0).2 with
+    | cont s' => rw [hr] at h2; exact h2
+    | done x => trivial
+
+/-! ## the invariant over arbitrary action lists -/
+
+/-- `f` is bound to `id`; every live struct and every machine in flight (of any thread of any process) respects it -/
+structure Inv (f : KeyFile) (i : Ino) (id : SemId) (g : G) : Prop where
+  bound : Bound g.os f i id
+  hs : ∀ h p x, g.hs h = some (p, x) → x.inv f id
+  calls : ∀ t c, g.calls t = some c → c.inv f i id
+
+def Quiet (f : KeyFile) (g : G) : Prop := ∀ t c, g.calls t = some c → c.quiet f
+
+theorem inv_step (f : KeyFile) (i : Ino) (id : SemId) (hfs : ∀ n, f ≠ .shm n) (g : G) (t : Tid) (intr : Bool)
+    (hi : Inv f i id g) (hq : Quiet f g) : Inv f i id (g.step t intr) := by
+  cases hc : g.calls t with
+  | none => rw [step_none g t intr hc]; exact hi
+  | some c =>
+    have := call_step_inv (g.pidOf t) intr c g.os f i id hfs hi.bound (hi.calls t c hc) (hq t c hc)
+    refine ⟨by rw [step_os g t intr c hc]; exact this.1, ?_, ?_⟩
+    · have h2 := this.2.1
+      intro h p x hx
+      simp only [G.step, hc] at hx
+      cases hr : c.after (sysStep (g.pidOf t) intr c.next g.os c.name).2 with
+      | cont c' => simp only [hr, G.setCall] at hx; exact hi.hs h p x hx
+      | done y =>
+        obtain ⟨ret, nh⟩ := y
+        rw [hr] at h2
+        cases nh with
+        | none => simp only [hr, G.setCall, G.setRet] at hx; exact hi.hs h p x hx
+        | some z =>
+          obtain ⟨hid, ox⟩ := z
+          cases ox with
+          | none =>
+            simp only [hr, G.setCall, G.setRet, G.setHandle] at hx
+            split at hx
+            · cases hx
+            · exact hi.hs h p x hx
+          | some x' =>
+            simp only [hr, G.setCall, G.setRet, G.setHandle] at hx
+            split at hx
+            · simp only [Option.some.injEq, Prod.mk.injEq] at hx
+              rw [← hx.2]; exact h2
+            · exact hi.hs h p x hx
+    · have h2 := this.2.1
+      intro t' c' hc'
+      simp only [G.step, hc] at hc'
+      cases hr : c.after (sysStep (g.pidOf t) intr c.next g.os c.name).2 with
+      | cont c'' =>
+        rw [hr] at h2
+        simp only [hr, G.setCall] at hc'
+        split at hc'
+        · simp only [Option.some.injEq] at hc'; rw [← hc']; exact h2
+        · exact hi.calls t' c' hc'
+      | done y =>
+        obtain ⟨ret, nh⟩ := y
+        have key : ∀ g' : G, g'.calls = (fun t'' => if t'' = t then none else g.calls t'') → g'.calls t' = some c' → c'.inv f i id := by
+          intro g' hg' h'
+          rw [hg'] at h'
+          simp only at h'
+          split at h'
+          · cases h'
+          · exact hi.calls t' c' h'
+        cases nh with
+        | none => simp only [hr] at hc'; exact key _ rfl hc'
+        | some z =>
+          obtain ⟨hid, ox⟩ := z
+          cases ox <;> (simp only [hr] at hc'; exact key _ rfl hc')
+
+theorem inv_kill (f : KeyFile) (i : Ino) (id : SemId) (g : G) (p : Pid) (hi : Inv f i id g) : Inv f i id (g.kill p) := by
+  refine ⟨?_, ?_, ?_⟩
+  · have hb := hi.bound
+    refine ⟨hb.file, hb.key, ?_, hb.idlt, hb.uniq, hb.inj, hb.ilt, hb.noreuse⟩
+    simp only [G.kill, OS.kill, hb.alive, if_true]
+  · intro h q x hx
+    simp only [G.kill] at hx
+    split at hx
+    · split at hx
+      · cases hx
+      · rename_i q' x' hq' _
+        simp only [Option.some.injEq, Prod.mk.injEq] at hx
+        exact hi.hs h q' x (by rw [hq', hx.2])
+    · cases hx
+  · intro t c hc
+    simp only [G.kill] at hc
+    split at hc
+    · cases hc
+    · exact hi.calls t c hc
+
+theorem handleOf_hs (g : G) (t : Tid) (h : Hid) (x : Handle) (hx : g.handleOf t h = some x) : g.hs h = some (g.pidOf t, x) := by
+  simp only [G.handleOf] at hx
+  split at hx
+  · rename_i p y hy
+    split at hx
+    · rename_i hp
+      simp only [Option.some.injEq] at hx
+      rw [hy, hp, hx]
+    · cases hx
+  · cases hx
+
+theorem inv_setRet (f : KeyFile) (i : Ino) (id : SemId) (g : G) (t : Tid) (r : Ret) (hi : Inv f i id g) : Inv f i id (g.setRet t r) :=
+  ⟨hi.bound, hi.hs, hi.calls⟩
+
+theorem inv_setCall (f : KeyFile) (i : Ino) (id : SemId) (g : G) (t : Tid) (c : Call) (hi : Inv f i id g) (hc : c.inv f i id) :
+    Inv f i id (g.setCall t (some c)) := by
+  refine ⟨hi.bound, hi.hs, ?_⟩
+  intro t' c' h'
+  simp only [G.setCall] at h'
+  split at h'
+  · simp only [Option.some.injEq] at h'; rw [← h']; exact hc
+  · exact hi.calls t' c' h'
+
+theorem inv_setHandle (f : KeyFile) (i : Ino) (id : SemId) (g : G) (h : Hid) (v : Option (Pid × Handle)) (hi : Inv f i id g)
+    (hv : ∀ p x, v = some (p, x) → x.inv f id) : Inv f i id (g.setHandle h v) := by
+  refine ⟨hi.bound, ?_, hi.calls⟩
+  intro h' p x hx
+  simp only [G.setHandle] at hx
+  split at hx
+  · exact hv p x hx
+  · exact hi.hs h' p x hx
+
+theorem inv_startOut (f : KeyFile) (i : Ino) (id : SemId) (g : G) (t : Tid) (o : Out Call (Ret × Option (Hid × Option Handle)))
+    (hi : Inv f i id g) (ho : CallOut.inv f i id o) : Inv f i id (startOut g t o) := by
+  cases o with
+  | cont c => exact inv_setCall f i id g t c hi ho
+  | done y =>
+    obtain ⟨ret, nh⟩ := y
+    cases nh with
+    | none => exact inv_setRet f i id g t ret hi
+    | some z =>
+      obtain ⟨hid, ox⟩ := z
+      cases ox with
+      | none => exact inv_setHandle f i id _ hid none (inv_setRet f i id g t ret hi) (by intro p x e; cases e)
+      | some x =>
+        refine inv_setHandle f i id _ hid _ (inv_setRet f i id g t ret hi) ?_
+        intro p x' e
+        simp only [Option.some.injEq, Prod.mk.injEq] at e
+        rw [← e.2]; exact ho
+
+theorem semFreeStart_inv (f : KeyFile) (i : Ino) (id : SemId) (s : PSem) (hs : s.inv f id) : CallOut.inv f i id (semFreeStart s) := by
+  simp only [semFreeStart]
+  split
+  · rename_i st hst
+    exact startClean_free_inv f i id s hs st hst
+  · trivial
+
+theorem shmFreeStart_inv (f : KeyFile) (i : Ino) (id : SemId) (m : PShm) (hm : ∀ ps, m.sem = some ps → ps.inv f id) :
+    CallOut.inv f i id (shmFreeStart m) := by
+  simp only [shmFreeStart]
+  have := (shm_clean_inv f i id ({ isNew := false, h := m, pc := .kDt } : ShmSt) hm).2.2.1
+  split
+  · rename_i st hst
+    rw [hst] at this
+    exact this
+  · trivial
+
+theorem inv_start (f : KeyFile) (i : Ino) (id : SemId) (g : G) (t : Tid) (op : Op) (hi : Inv f i id g) : Inv f i id (g.start t op) := by
+  unfold G.start
+  split
+  · exact inv_setRet f i id g t _ hi
+  · cases op with
+    | newSem h n init m =>
+      simp only
+      split
+      · exact inv_setRet f i id g t _ hi
+      · refine inv_setCall f i id g t _ hi ?_
+        simp only [Call.inv, SemSt.inv]
+        split <;> simp
+    | newShm h n size ro =>
+      simp only
+      split
+      · exact inv_setRet f i id g t _ hi
+      · refine inv_setCall f i id g t _ hi ?_
+        exact ⟨(by intro ps e; cases e), trivial⟩
+    | acq h =>
+      simp only
+      split
+      · rename_i s hs
+        have := hi.hs h _ _ (handleOf_hs g t h _ hs)
+        refine inv_setCall f i id g t _ hi ⟨?_, by simp⟩
+        simp only [Handle.inv, PSem.inv] at this
+        simp only [SemSt.inv]
+        split <;> simp_all
+      · exact inv_setRet f i id g t _ hi
+    | rel h =>
+      simp only
+      split
+      · rename_i s hs
+        have := hi.hs h _ _ (handleOf_hs g t h _ hs)
+        refine inv_setCall f i id g t _ hi ⟨?_, by simp⟩
+        simp only [Handle.inv, PSem.inv] at this
+        simp only [SemSt.inv]
+        split <;> simp_all
+      · exact inv_setRet f i id g t _ hi
+    | lock h =>
+      simp only
+      split
+      · rename_i m hm
+        have := hi.hs h _ _ (handleOf_hs g t h _ hm)
+        split
+        · rename_i s hs
+          have := this s hs
+          refine inv_setCall f i id g t _ hi ⟨?_, by simp⟩
+          simp only [PSem.inv] at this
+          simp only [SemSt.inv]
+          split <;> simp_all
+        · exact inv_setRet f i id g t _ hi
+      · exact inv_setRet f i id g t _ hi
+    | unlock h =>
+      simp only
+      split
+      · rename_i m hm
+        have := hi.hs h _ _ (handleOf_hs g t h _ hm)
+        split
+        · rename_i s hs
+          have := this s hs
+          refine inv_setCall f i id g t _ hi ⟨?_, by simp⟩
+          simp only [PSem.inv] at this
+          simp only [SemSt.inv]
+          split <;> simp_all
+        · exact inv_setRet f i id g t _ hi
+      · exact inv_setRet f i id g t _ hi
+    | own h =>
+      simp only
+      split
+      · rename_i s hs
+        have := hi.hs h _ _ (handleOf_hs g t h _ hs)
+        refine inv_setRet f i id _ t _ (inv_setHandle f i id g h _ hi ?_)
+        intro p x e
+        simp only [Option.some.injEq, Prod.mk.injEq] at e
+        rw [← e.2]
+        simpa [Handle.inv, PSem.inv] using this
+      · rename_i m hm
+        have := hi.hs h _ _ (handleOf_hs g t h _ hm)
+        refine inv_setRet f i id _ t _ (inv_setHandle f i id g h _ hi ?_)
+        intro p x e
+        simp only [Option.some.injEq, Prod.mk.injEq] at e
+        rw [← e.2]
+        intro ps hps
+        simp only [Option.map_eq_some_iff] at hps
+        obtain ⟨s0, hs0, rfl⟩ := hps
+        simpa [PSem.inv] using this s0 hs0
+      · exact inv_setRet f i id g t _ hi
+    | free h =>
+      simp only
+      split
+      · rename_i s hs
+        have := hi.hs h _ _ (handleOf_hs g t h _ hs)
+        exact inv_startOut f i id _ t _ (inv_setHandle f i id g h none hi (by intro p x e; cases e)) (semFreeStart_inv f i id s this)
+      · rename_i m hm
+        have := hi.hs h _ _ (handleOf_hs g t h _ hm)
+        exact inv_startOut f i id _ t _ (inv_setHandle f i id g h none hi (by intro p x e; cases e)) (shmFreeStart_inv f i id m this)
+      · exact inv_setRet f i id g t _ hi
+    | size h => simp only; split <;> exact inv_setRet f i id g t _ hi
+    | rd h off => simp only; (repeat' split) <;> exact inv_setRet f i id g t _ hi
+    | wr h off b =>
+      simp only
+      cases hh : g.handleOf t h with
+      | none => exact inv_setRet f i id g t _ hi
+      | some x =>
+        cases x with
+        | sem s0 => exact inv_setRet f i id g t _ hi
+        | shm m =>
+          simp only
+          cases hos : ((addrOpt m.addr).bind fun a => g.os.store (g.pidOf t) a off b) with
+          | none => exact inv_setRet f i id g t _ hi
+          | some os' =>
+            simp only
+            refine inv_setRet f i id _ t _ ⟨?_, hi.hs, hi.calls⟩
+            cases ha : addrOpt m.addr with
+            | none => simp [ha] at hos
+            | some a =>
+              simp only [ha, Option.bind_some, OS.store] at hos
+              (repeat' split at hos) <;> simp only [Option.some.injEq, reduceCtorEq] at hos
+              subst hos
+              exact bound_of_eq g.os _ f i id hi.bound rfl rfl rfl rfl rfl rfl
+
+theorem inv_exec (f : KeyFile) (i : Ino) (id : SemId) (hfs : ∀ n, f ≠ .shm n) (g : G) (a : Action)
+    (hi : Inv f i id g) (hq : Quiet f g) : Inv f i id (exec g a) := by
+  cases a with
+  | start t op => exact inv_start f i id g t op hi
+  | step t intr => exact inv_step f i id hfs g t intr hi hq
+  | kill p => exact inv_kill f i id g p hi
+
+/-- no owner free of `f` in between: before every action of the schedule no call is at the IPC_RMID / unlink of a
+    clean-up of `f` -/
+def QuietRun (f : KeyFile) : G → List Action → Prop
+  | _, [] => True
+  | g, a :: as => Quiet f g ∧ QuietRun f (exec g a) as
+
+theorem inv_execAll (f : KeyFile) (i : Ino) (id : SemId) (hfs : ∀ n, f ≠ .shm n) (as : List Action) :
+    ∀ g, Inv f i id g → QuietRun f g as → Inv f i id (execAll g as) := by
+  induction as with
+  | nil => intro g h _; exact h
+  | cons a as ih =>
+    intro g h hq
+    simp only [execAll, List.foldl_cons]
+    exact ih (exec g a) (inv_exec f i id hfs g a h hq.1) hq.2
+
+/-- a step of a call that works on another name leaves the set (value, SEM_UNDO adjustments, liveness) untouched -/
+theorem step_frame (f : KeyFile) (i : Ino) (id : SemId) (hfs : ∀ n, f ≠ .shm n) (g : G) (t : Tid) (intr : Bool) (c : Call)
+    (hi : Inv f i id g) (hq : Quiet f g) (hc : g.calls t = some c) (hf : c.file ≠ f) :
+    (g.step t intr).os.sems id = g.os.sems id := by
+  rw [step_os g t intr c hc]
+  exact (call_step_inv (g.pidOf t) intr c g.os f i id hfs hi.bound (hi.calls t c hc) (hq t c hc)).2.2 hf
+
 end PV.SysV
